@@ -89,6 +89,7 @@ func VH_C10_C12_DecodeHead() {
 // predicate); result = exactly the declared bytes; exactly head+content consumed.
 func VH_C10_C12_DecodeString() {
 	vh.MustReach("accept", "reject-short", "reject-head")
+	vh.AllocCap(4096) // C10: a declared length is never trusted for allocation
 	text := vh.Choose(2) == 1
 	var L int
 	if text {
